@@ -354,3 +354,26 @@ Theorem C13_handlers_address : forall st s1 s2,
   exists d, h_step st (HShow s1) = (st, (true, d)).
 Proof. exact h_show_cv. Qed.
 Print Assumptions C13_handlers_address.
+
+(** * 7. clean-up paths: digests taken from stored manifests *)
+
+(** whatever strings a stored manifest holds as layer / config digests, the files that deleteUnusedLayers, Layer.Remove
+    and PruneLayers can remove are the blobs directory entry <root>/blobs/<file> (or, for the empty string, the blobs
+    directory itself, which os.Remove leaves alone unless it is empty); a non-empty string outside the grammar names no file *)
+Theorem C13_cleanup_confined : forall root refs ds d p,
+  (In p (cleanup_targets root ds) \/ In p (layer_remove_targets root refs d) \/ In p (delete_unused_targets root refs ds)) ->
+  p = path_append (fp_clean root) [s_blobs] \/
+  exists file, safe_comp file /\ p = path_append (fp_clean root) [s_blobs; file].
+Proof.
+  intros root refs ds d p [H|[H|H]];
+    [exact (cleanup_targets_confined root ds p H)|exact (layer_remove_confined root refs d p H)|exact (delete_unused_confined root refs ds p H)].
+Qed.
+Print Assumptions C13_cleanup_confined.
+
+Theorem C13_cleanup_rejects : forall root d, d <> [] -> digest_re_match d = false -> cleanup_targets root [d] = [].
+Proof. exact cleanup_rejects. Qed.
+Print Assumptions C13_cleanup_rejects.
+
+Example C13_cleanup_rejects_nonvacuous :
+  digest_re_match [46; 46; 47; 105; 100] = false /\ cleanup_targets [47; 109] [[46; 46; 47; 105; 100]] = [].   (* "../id" *)
+Proof. vm_compute. split; reflexivity. Qed.
